@@ -206,6 +206,18 @@ Section Proofs.
     lookup s = LNotFound -> generate_receive_prefix lookup a s = RPanic.
   Proof. intros El. unfold generate_receive_prefix. rewrite El. reflexivity. Qed.
 
+  (* KNOWN FINDING (refund-to-contract-sender-fails): when the sender of a failing call that carries value is itself
+     a contract, applySend rejects the refund (no method for empty call data), generateEmbeddedReceive returns an
+     error, no receive block is produced and the call stays at the head of the inbox *)
+  Theorem refund_to_contract_wedges lookup a s m c c' :
+    lookup s = LFound m -> m (credited a s) s = MErr c -> 0 < s_amount s -> dest_check (refund_of s) = Some c' ->
+    generate_receive lookup a s = RInternal c'.
+  Proof.
+    intros El Em Hp Hd. unfold generate_receive. rewrite El. fold (credited a s). rewrite Em.
+    unfold rollback. replace (0 <? s_amount s) with true by (symmetry; lia).
+    unfold VmReceive.apply_send. rewrite Hd. reflexivity.
+  Qed.
+
   (* the whole inbox: every queued call gets its receive block, whatever came before it *)
   Fixpoint process_all (lookup : send -> lres cstate) (a : cacct) (q : list send) : option cacct :=
     match q with
@@ -228,3 +240,20 @@ Section Proofs.
         rewrite E; destruct (IH a' Hn' HJ') as (a'' & E' & Hc' & Hn'' & HJ''); exists a''; repeat split; auto; lia.
   Qed.
 End Proofs.
+
+(* ---- method tables: [(contract, selector)] per spork regime.  A regime change only moves to a larger table, so a
+   call that found its method when it was accepted finds it when it is received. *)
+Definition mt_has (t : list (bytes * bytes)) (c sel : bytes) : bool :=
+  existsb (fun e => bytes_eqb (fst e) c && bytes_eqb (snd e) sel) t.
+Definition mt_incl (t t' : list (bytes * bytes)) : bool := forallb (fun e => mt_has t' (fst e) (snd e)) t.
+Fixpoint mt_chain (ts : list (list (bytes * bytes))) : bool :=
+  match ts with
+  | t :: ((t' :: _) as r) => mt_incl t t' && mt_chain r
+  | _ => true
+  end.
+Lemma mt_incl_keeps t t' c sel : mt_incl t t' = true -> mt_has t c sel = true -> mt_has t' c sel = true.
+Proof.
+  unfold mt_incl. rewrite forallb_forall. intros Hi Hh. unfold mt_has in Hh. apply existsb_exists in Hh.
+  destruct Hh as ((c0, s0) & Hin & He). cbn [fst snd] in He. apply andb_true_iff in He. destruct He as (E1 & E2).
+  apply bytes_eqb_eq in E1. apply bytes_eqb_eq in E2. subst. apply (Hi _ Hin).
+Qed.
